@@ -60,6 +60,11 @@ Theorem C01_failure_reported : forall cfg f d x,
      r_out r <> status_ok /\ r_db r = d).
 Proof. exact failure_reported. Qed.
 
+(* a result set of the validation read that breaks off mid-stream is such a failing call, not a shorter
+   complete answer (rows.Err() is checked; regenerated) *)
+Theorem C01_read_errors_checked : exec_read_errors_checked = true.
+Proof. exact read_errors_checked. Qed.
+
 (* the status answered for a plain error is not 'rollbacked' (BranchRollback's mapping, regenerated) *)
 Theorem C01_status_mapping : status_plain_error <> status_ok /\ status_unretriable <> status_ok /\ status_other_seata_error <> status_ok.
 Proof. exact status_mapping. Qed.
